@@ -213,3 +213,22 @@ func (g *Graph) refContextJSONLD(prefix string, fresh bool) string {
 	}
 	return `{"@context": ` + strconv.Quote(path) + `, "@graph": ` + t + `}`
 }
+
+// SplitJSONLD renders the graph flat, but every node with at least two properties is described by TWO entries of
+// @graph that share its @id (the first with the types and the first half of the properties, the second, placed after
+// all first entries, with the rest). JSON-LD flattening merges such entries; the graph is the same.
+func (g *Graph) SplitJSONLD() string {
+	var first, second []any
+	for _, n := range g.Nodes {
+		if len(n.Props) < 2 {
+			first = append(first, nodeObj(n))
+			continue
+		}
+		h := len(n.Props) / 2
+		a := &GNode{ID: n.ID, Types: n.Types, Props: n.Props[:h]}
+		b := &GNode{ID: n.ID, Props: n.Props[h:]}
+		first = append(first, nodeObj(a))
+		second = append(second, nodeObj(b))
+	}
+	return JSON(map[string]any{"@graph": append(first, second...)})
+}
